@@ -59,6 +59,15 @@ M.update({
     "par_maybe_wrong_bit": ("src/join/maybe.rs", "    unsafe fn get((mask, value): &Self::Value, id: Index) -> Self::Type {\n        if mask.contains(id) {", "    unsafe fn get((mask, value): &Self::Value, id: Index) -> Self::Type {\n        if mask.contains(id) && id % 4096 != 4095 {", "C07"),
 })
 
+M.update({
+    "clear_keeps_mask_during_clean": ("src/storage/mod.rs", "        let mut mask_temp = core::mem::take(&mut self.mask);\n        // SAFETY: `self.mask` is the correct mask as specified. We swap in a\n        // temporary empty mask to ensure if this unwinds that the mask will be\n        // cleared.\n        unsafe { self.inner.clean(&mask_temp) };\n        mask_temp.clear();\n        self.mask = mask_temp;", "        unsafe { self.inner.clean(&self.mask) };\n        self.mask.clear();", "C19"),
+    "drop_clears_bit_after_destroy": ("src/storage/mod.rs", "    pub fn drop(&mut self, id: Index) {\n        if self.mask.remove(id) {\n            // SAFETY: We checked the mask and removed the id before calling\n            // drop (`remove` returned `true`).\n            unsafe {\n                self.inner.drop(id);\n            }\n        }\n    }", "    pub fn drop(&mut self, id: Index) {\n        if self.mask.contains(id) {\n            unsafe {\n                self.inner.drop(id);\n            }\n            self.mask.remove(id);\n        }\n    }", "C19"),
+    "dense_clean_data_first": ("src/storage/storages.rs", "        self.data_id.clear();\n        self.entity_id.clear();\n        self.data.clear();", "        self.data.clear();\n        self.data_id.clear();\n        self.entity_id.clear();", "C19"),
+    "changeset_clear_keeps_mask": ("src/changeset.rs", "        let mut mask_temp = core::mem::take(&mut self.mask);\n        // SAFETY: `self.mask` is the correct mask as specified. We swap in a\n        // temporary empty mask to ensure if this unwinds that the mask will be\n        // cleared.\n        unsafe { self.inner.clean(&mask_temp) };\n        mask_temp.clear();\n        self.mask = mask_temp;", "        unsafe { self.inner.clean(&self.mask) };\n        self.mask.clear();", "C19"),
+    "changeset_add_overwrites": ("src/changeset.rs", "            unsafe { *self.inner.get_mut(entity.id()) += value };", "            unsafe { *self.inner.get_mut(entity.id()) = value };", "C16"),
+    "changeset_byvalue_get_no_remove": ("src/changeset.rs", "unsafe impl<'a, T> Join for &'a ChangeSet<T> {\n    type Mask = &'a BitSet;\n    type Type = &'a T;\n    type Value = &'a DenseVecStorage<T>;\n\n    unsafe fn open(self) -> (Self::Mask, Self::Value) {\n        (&self.mask, &self.inner)\n    }", "unsafe impl<'a, T> Join for &'a ChangeSet<T> {\n    type Mask = &'a BitSet;\n    type Type = &'a T;\n    type Value = &'a DenseVecStorage<T>;\n\n    unsafe fn open(self) -> (Self::Mask, Self::Value) {\n        (&self.mask, &self.inner)\n    }", "-"),
+})
+
 
 def sh(cmd, **kw):
     return subprocess.run(cmd, shell=True, **kw)
